@@ -16,6 +16,18 @@ CHECKS["C11"] = ("exploration", "runtime monitoring: lone-instance replay monito
 CHECKS["C12"] = ("exploration", "runtime monitoring: differential trace monitor over the configuration lattice (base point vs every point), separate processes for warm disk cache",
   "Full lattice of 768 configuration points (8 cache modes incl. warm directory from another process and shared-cache orders with closes, capacity-from-max, guard-page allocator, debug info, custom sections, close-on-context-done, 3 listener sets, 2 engines) for a few programs plus thousands of PRNG (program, point) pairs; the guest's canonical trace at the point must equal the base trace. Held on the pairs explored only.",
   "error text is not compared (only class); listener callbacks are C20's business; core features and memory limit are semantic and fixed", "§3 C12")
+CHECKS["C08"] = ("exploration", "runtime monitoring: echo-protocol monitors at the host/guest boundary (host-side recorder + in-wasm judge + Go-side comparison), race detector/checkptr on a sample",
+  "For thousands of host-function signatures (all up to arity 3x2 exhaustively over the numeric types, a covering set with every type at every position 0-13 crossing the amd64 register cliffs, PRNG ones) x 8 definition styles x Call/CallWithStack x re-entry, known values are sent through; the host function checks what it received, the guest judges results in wasm against baked constants (bit masks), Go checks what comes back; both engines. Held on the signatures and value vectors explored only.",
+  "a non-zero upper half of a 32-bit result slot seen from Go is allowed (documented DecodeU32/DecodeI32 use); arm64 not executed", "§3 C08")
+CHECKS["C10"] = ("exploration", "runtime monitoring: porcupine linearizability checking of recorded client-boundary histories + schedule-point hooks (-tags verif) + Go race detector + exactly-once close-notification counters",
+  "Thousands of short concurrent histories (3-8 goroutines x 3-6 ops over two names and the anonymous name; instantiate/lookup/close/compile/host-module/runtime-close) are recorded with call/return stamps from one logical clock and checked by porcupine against the sequential registry model; hooks between critical sections widen windows; quiescence counters (close notification exactly once, every module closed, later requests fail with an error, no panic); a sequential phase with shrinking gives trigger-level signatures; the same scripts run under the race detector. Held on the histories and interleavings observed only.",
+  "porcupine search (NP-complete, timeout => inconclusive); race detector happens-before; hooks sit between critical sections only", "§3 C10, App. C")
+CHECKS["C15"] = ("exploration", "runtime monitoring: per-call monitors over hostile WASI argument tuples (outcome class, whole-memory diff against allowed write sets, shadow descriptor table, allocation delta) in supervised children",
+  "All 46 WASI functions are called as a guest with boundary/overflowing argument tuples (full product for <=3 params, pairwise+PRNG beyond) in several descriptor-table states, mounts and stdio variants; per call: no Go runtime error / child death, guest memory changed only inside the regions of Appendix A, previously open descriptors still behave per the shadow table, host allocation <= 4x guest memory + 1 MiB. Held on the calls explored only.",
+  "allowed write sets are supersets where the docs are vague; allocation measured by runtime.MemStats", "§3 C15, App. A")
+CHECKS["C17"] = ("exploration", "runtime monitoring: before/after snapshot monitor of the mounted host tree (and MapFS) around every single WASI call, full path_open flag product",
+  "The full product of path_open oflags x fdflags x rights x lookupflags x paths (30 720 combinations, counted in evidence) with follow-up writes on every returned fd, every other mutating call over all paths, and PRNG sequences, on read-only dir mounts and fs.FS mounts (os.DirFS, MapFS); a recursive snapshot (names, types, sizes, SHA-256, mtime/ctime, modes, inodes, link targets) must be identical before and after every call and a known file must still read back. Held on the calls explored only.",
+  "atime excluded; power-loss effects not producible", "§3 C17")
 CHECKS["C01"] = ("exploration", "runtime monitoring: differential trace monitor (interpreter vs compiler) over generated programs in supervised children",
   "By-construction-valid generated programs (all enabled features, NaN-canonicalised, fuel-terminated) with PRNG call scripts are run on both engines; a monitor compares canonical traces (result bits, trap kind, host-call log, memory/global/table digests after every step) event by event; crashes and internal errors are violations, stack exhaustion is inconclusive. Held on the programs explored only.",
   "trusts the generator's NaN canonicalisation and fuel; errors shared by both engines are invisible here (C05 covers numerics); arm64 back end not executed", "§3 C01")
